@@ -43,7 +43,7 @@ IDS_COMMON = ['a', 'b', 'c', 'x', 'y', 'f', 'g', 'i', 'n']
 IDS_ODD = ['$', '_', '$x', 'x$', '_y', 'a1', 'A', 'Zz', 'get', 'set', 'inx', 'newton', 'ins', 'iff', 'dof',
            'of', 'let', 'yield', 'static', 'undefined', 'arguments', 'eval', 'typeofx', 'thisx', 'nulls',
            u'\u00e9', u'\u03a9', u'\u0434', u'\u65e5\u672c', u'a\u00e9', u'x\u0300', u'a\u203fb', u'x\u0663',
-           u'\u00f1', 'in1', 'var_', 'q2w3']
+           u'\u00f1', 'in1', 'var_', 'q2w3', u'\u212b', u'A\u030a', u'\u2126', u'o\u0302\u0323', u'a\u200c', u'x\u200db']
 LABELS = ['L', 'M', 'loop', 'outer', 'a', 'x']
 # character classes an IdentifierName is spelled from (pre-Unicode-3.0 characters only)
 ID_START_CLASSES = [['a', 'x', 'Z'], ['$', '_'], [u'\u00e9', u'\u03a9', u'\u0434', u'\u65e5']]
@@ -694,7 +694,7 @@ COMMENTS_INLINE = ['/*c*/', '/**/', '/* a * b / */', u'/*\u00e9*/', '/*//*/', '/
 COMMENTS_ML = ['/*c\nc*/', '/*\n*/', '/*\r\n * x\r\n */', u'/*a\u2028b*/', u'/*\u2029*/', '/*\r*/', '/*a\rb*/',
                '/*\n * a\n * b\n * c\n */', '/*\x0c\n\x0b*/']
 COMMENTS_LINE = ['//c\n', '//\n', '// a /* b\n', u'//\u00e9\r\n', '//x\r', u'//c\u2028', u'// d\u2029',
-                 '// t  \n', '//\t\n', '// \n', u'//u\u00a0\n', '//v \t\r\n', '//  lead\n']
+                 '// t  \n', '//\t\n', '// \n', u'//u\u00a0\n', '//v \t\r\n', '//  lead\n', '// page\x0c\n', u'//w\x85\n', '//\x0b \n']
 
 _join_cache = {}
 
